@@ -405,7 +405,8 @@ def main():
     rc = 0
     # runs against a scratch copy (mutant trials) must not clobber the committed replays / evidence
     on_real_repo = os.path.realpath(REPO) == '/repo'
-    OUT = VERIF if on_real_repo else os.path.join(SCRATCH_ROOT, 'verif-out')
+    # (--unit runs are development runs of a single unit: they do not rewrite the property's evidence either)
+    OUT = VERIF if (on_real_repo and not args.unit) else os.path.join(SCRATCH_ROOT, 'verif-out')
     os.makedirs(os.path.join(OUT, 'replays'), exist_ok=True)
     for kf, f in known_hits:
         print('KNOWN-FINDING: property=%s %s (%s)' % (prop, kf.get('what', f['obligation']), f['obligation']))
